@@ -22,12 +22,12 @@ EXPLANATION = (
     'disconnect fails every pending request once and empties both tables; R5 write queue is FIFO (append / pop(0) / [0].start(), '
     'start on enqueue only when the queue was empty); R6 the write lock is released on every path, and no index/pop on a possibly '
     'empty container can raise inside a held region; R7 completion callbacks run after the release; R8 one in-flight read per memory id; '
-    'R9 reply parsing offsets agree with the formats and the channel dispatch maps channels to their handlers.')
+    'R9 reply parsing offsets agree with the formats and the channel dispatch maps channels to their handlers; R10 DeckMemoryManager forgets its pending read/write/query record on every path of the four completion handlers, before the user callback, refuses a second request only while a record is pending and forgets all on disconnect.')
 ASSUMPTIONS = [
     'objects other than Memory (requests, packets) do not mutate Memory._write_requests/_read_requests',
     'user progress callbacks and link drivers raising inside the lock are outside the property\'s quantifier',
 ]
-FLOORS = {'R1': 4, 'R2': 6, 'R3': 6, 'R4': 10, 'R5': 4, 'R6': 4, 'R7': 2, 'R8': 1, 'R9': 4}
+FLOORS = {'R1': 4, 'R2': 6, 'R3': 6, 'R4': 10, 'R5': 6, 'R6': 4, 'R7': 2, 'R8': 1, 'R9': 4, 'R10': 15}
 
 
 def _const(func, node):
@@ -252,6 +252,12 @@ def check(ctx):
                                 isinstance(v, ast.Name) and v.id in norm(dn.ast.value) for v in ast.walk(lp.ast.target)):
                             derived = True
                 okl = bool(dnodes) and derived and all(g.path_avoiding(cnode, [dn]) is None for dn in dnodes)
+                # ... and that takes whole queues: no element selection (requests[0]) and no filter other than emptiness
+                for dn in dnodes:
+                    parts = [x for x in ast.walk(dn.ast.value) if isinstance(x, ast.Subscript) and not norm(x.value).startswith('self.')]
+                    filt = [i for x in ast.walk(dn.ast.value) if isinstance(x, ast.comprehension) for i in x.ifs if not isinstance(i, ast.Name)]
+                    if parts or filt:
+                        okl = False
         ctx.inst('R4', caf, 'disconnect-fails-each:' + table, okl, 'each pending request must get exactly one failure callback, from a snapshot taken before the table is emptied')
     dis = mem.method('_disconnected')
     ctx.inst('R4', dis, 'disconnect-calls-fail-all', any(method_call(c, '_call_all_failed_callbacks') for c in walk_own(dis.node)),
@@ -292,6 +298,14 @@ def check(ctx):
         ctx.inst('R5', f, 'dequeue-at-head', c.func.attr == 'pop' and [fold_in(f, a) for a in c.args] == [0], 'completed writes leave at the head; found %s' % norm(c))
     for f, c in starts:
         ctx.inst('R5', f, 'start-head', norm(c.func.value).endswith('][0]'), 'only the head of the queue may be started; found %s' % norm(c))
+    hw_ = mem.method('_handle_chan_write')
+    regs_, gh = regions(hw_, 'self._write_requests_lock')
+    for n, c in gh.find(lambda q: method_call(q, 'start') and 'self._write_requests[' in norm(q.func.value)):
+        pops = [p for r in regs_ if n.id in {h.id for h in r.held} for p in r.held
+                if any(method_call(x, 'pop') and norm(x.func.value).startswith('self._write_requests[') for x in (walk_own(p.ast) if p.ast is not None and p.kind == 'stmt' else []))
+                and gh.dominates(p, n)]
+        ctx.inst('R5', hw_, 'next-started-with-dequeue@' + ('status0' if fact_key('status == 0') in gh.fact_keys_at(n) else 'error'), bool(pops),
+                 'the next queued write is started in the same locked region that removed the finished one (before any callback can enqueue and start a write itself)', line=n.line)
     wf = mem.method('write')
     g = cfg_of(wf)
     for n, c in g.find(lambda n: method_call(n, 'start')):
@@ -332,6 +346,8 @@ def check(ctx):
         held_ids = {n.id for r in regs for n in r.held}
         ctx.inst('R7', hw, 'callback-after-release:' + cbn, all(n.id not in held_ids for n, _ in sites),
                  'completion callbacks must run after the lock is released')
+
+    deck_manager_rules(ctx)
 
     # ---------------- R8: one in-flight read ---------------------------------------
     rf = mem.method('read')
@@ -410,7 +426,52 @@ def unsafe_index(n, facts):
     return out
 
 
+DM = 'cflib/crazyflie/mem/deck_memory.py'
+
+
+def deck_manager_rules(ctx):
+    """R10 - DeckMemoryManager keeps one pending read / write / query record (its callbacks); each completion or failure of the underlying
+    transfer forgets the record on every path before the user's callback runs, so the next request is accepted."""
+    D = ctx.model.cls(DM, 'DeckMemoryManager')
+    clears = {'_clear_query_cb': ['self._query_complete_cb', 'self._query_failed_cb'], '_clear_read_cb': ['self._read_complete_cb', 'self._read_failed_cb'],
+              '_clear_write_cb': ['self._write_complete_cb', 'self._write_failed_cb']}
+    for cn, attrs in clears.items():
+        f = D.method(cn)
+        got = {norm(t): norm(st.value) for st in f.node.body if isinstance(st, ast.Assign) for t in st.targets}
+        ctx.inst('R10', f, 'forgets-both-callbacks', all(got.get(a) == 'None' for a in attrs), '%s resets %s to None; found %s' % (cn, attrs, got))
+    plan = {'_new_data': ('_clear_read_cb', '_clear_query_cb'), '_new_data_failed': ('_clear_read_cb', '_clear_query_cb'), '_write_done': ('_clear_write_cb',), '_write_failed': ('_clear_write_cb',)}
+    for hn, want in plan.items():
+        h = D.method(hn)
+        g = cfg_of(h)
+        own = [n for n in g.nodes if n.kind == 'if' and fact_key(norm(n.ast.test)) == fact_key('%s.id == self.id' % h.params[1])]
+        ctx.need(len(own) == 1, '%s: test of the memory id not found' % h.qualname)
+        cl = [n for n, c in g.find(lambda q: isinstance(q, ast.Call) and norm(q.func).startswith('self._clear_') and norm(q.func)[5:] in want)]
+        false_edges = [e for e in own[0].succ if e.label and e.label[0] == 'cond' and e.label[2] is False]
+        esc = g.path_avoiding(own[0], [g.exit], avoid=cl, avoid_edges=false_edges)
+        ctx.inst('R10', h, 'record-forgotten-on-every-path', bool(cl) and esc is None,
+                 'every path through the handler for the manager\'s own memory must pass %s (otherwise the next request raises "operation ongoing" for ever); %s'
+                 % (' / '.join(want), 'escaping path ' + g.fmt_path(esc) if esc else 'all paths pass'))
+        users = [n for n, c in g.find(lambda q: isinstance(q, ast.Call) and isinstance(q.func, ast.Name) and q.func.id == 'tmp_cb')]
+        ok = bool(users) and all(any(g.dominates(c, u) for c in cl) for u in users)
+        ctx.inst('R10', h, 'forgotten-before-user-callback', ok, 'the record is forgotten before the user callback runs (the callback may issue the next request)')
+    for fn, attr in (('_read', 'self._read_complete_cb'), ('_write', 'self._write_complete_cb'), ('query_decks', 'self._query_complete_cb')):
+        f = D.method(fn)
+        g = cfg_of(f)
+        st = [n for n in g.nodes if n.kind == 'stmt' and isinstance(n.ast, ast.Assign) and norm(n.ast.targets[0]) == attr]
+        tx = [n for n, c in g.find(lambda q: isinstance(q, ast.Call) and norm(q.func) in ('self.mem_handler.read', 'self.mem_handler.write'))]
+        rs = [n for n in g.nodes if n.kind == 'raise' and fact_key('%s is not None' % attr) in g.fact_keys_at(n)]
+        ok = len(st) == 1 and len(tx) == 1 and len(rs) == 1 and g.dominates(st[0], tx[0]) and fact_key('%s is not None' % attr, False) in g.fact_keys_at(st[0])
+        ctx.inst('R10', f, 'one-pending-record', ok, '%s refuses while a record is pending, otherwise records the callbacks before the transfer starts' % fn)
+    dis = D.method('disconnect')
+    called = sorted(norm(c.func)[5:] for c in walk_own(dis.node) if isinstance(c, ast.Call) and norm(c.func).startswith('self._clear_'))
+    ctx.inst('R10', dis, 'disconnect-forgets-all', called == sorted(clears), 'disconnect forgets all three records; calls %s' % called)
+
+
 VARIANTS = [
+    M('R10', DM, "                tmp_cb = self._read_failed_cb\n                self._clear_read_cb()\n                if tmp_cb is not None:\n                    tmp_cb(addr - self._read_base_address)",
+      "                tmp_cb = self._read_failed_cb\n                if tmp_cb is not None:\n                    self._clear_read_cb()\n                    tmp_cb(addr - self._read_base_address)", 'record kept when no failure callback'),
+    M('R10', DM, "            tmp_cb = self._write_complete_cb\n            self._clear_write_cb()\n            tmp_cb(addr - self._read_base_address)", "            tmp_cb = self._write_complete_cb\n            tmp_cb(addr - self._read_base_address)\n            self._clear_write_cb()", 'write record cleared after the callback'),
+    M('R4', ME, "        for requests in self._write_requests.values():\n            write_requests += requests\n", "        for requests in self._write_requests.values():\n            write_requests += requests[:1]\n", 'only in-flight writes failed on disconnect'),
     M('R1', ME, '    MAX_DATA_LENGTH = 25\n', '    MAX_DATA_LENGTH = 26\n', 'write chunk 26'),
     M('R1', ME, '        if new_len > _WriteRequest.MAX_DATA_LENGTH:\n            new_len = _WriteRequest.MAX_DATA_LENGTH\n', '', 'no write clamp'),
     M('R1', ME, '        if new_len > _ReadRequest.MAX_DATA_LENGTH:\n            new_len = _ReadRequest.MAX_DATA_LENGTH\n', '        if new_len > _ReadRequest.MAX_DATA_LENGTH + 1:\n            new_len = _ReadRequest.MAX_DATA_LENGTH\n', 'read clamp off by one'),
